@@ -61,6 +61,7 @@ impl Prop for BiasedDifferential {
         let nt = match self.bias {
             1 => reference.stale_capture_calls >= 1,
             2 => reference.try_none >= 1 || (reference.try_some >= 1 && reference.unwraps >= 1),
+            3 => prog.labels.iter().any(|l| l == "shadowing" || l == "loop-var-shadows") && !reference.printed.is_empty(),
             _ => true,
         };
         st.label(format!("closure-calls:{}", reference.closure_calls.min(3)));
